@@ -261,11 +261,53 @@ def _xlsx_drawing_parts(data: bytes) -> list:
         sheet = posixpath.normpath("xl/" + rels[rid])
         rp = posixpath.dirname(sheet) + "/_rels/" + posixpath.basename(sheet) + ".rels"
         if rp not in z.namelist():
-            out.append(None)
+            out.append((sheet, rp, None))
             continue
         m = re.search(r'Type="[^"]+/drawing" Target="([^"]+)"', z.read(rp).decode())
-        out.append(posixpath.normpath(posixpath.dirname(sheet) + "/" + m.group(1)) if m else None)
+        out.append((sheet, rp, posixpath.normpath(posixpath.dirname(sheet) + "/" + m.group(1)) if m else None))
     return out
+
+
+# Non-picture relationships a worksheet part commonly owns (cell comments: vmlDrawing + comments; page setup:
+# printerSettings; a table).  Their order relative to the drawing relationship is the producer's business.
+XLSX_EXTRA_RELS = {
+    "vmlDrawing": ("vmlDrawing", "../drawings/vmlDrawing{n}.vml", "xl/drawings/vmlDrawing{n}.vml"),
+    "comments": ("comments", "../comments{n}.xml", "xl/comments{n}.xml"),
+    "printerSettings": ("printerSettings", "../printerSettings/printerSettings{n}.bin", "xl/printerSettings/printerSettings{n}.bin"),
+    "table": ("table", "../tables/table{n}.xml", "xl/tables/table{n}.xml"),
+}
+_VML = ('<xml xmlns:v="urn:schemas-microsoft-com:vml" xmlns:o="urn:schemas-microsoft-com:office:office" '
+        'xmlns:x="urn:schemas-microsoft-com:office:excel"><o:shapelayout v:ext="edit"><o:idmap v:ext="edit" data="1"/>'
+        '</o:shapelayout><v:shapetype id="_x0000_t202" coordsize="21600,21600" o:spt="202" path="m,l,21600r21600,l21600,xe">'
+        '<v:stroke joinstyle="miter"/><v:path gradientshapeok="t" o:connecttype="rect"/></v:shapetype>'
+        '<v:shape id="_x0000_s1025" type="#_x0000_t202" style="position:absolute;visibility:hidden" fillcolor="#ffffe1">'
+        '<v:textbox/><x:ClientData ObjectType="Note"><x:Row>0</x:Row><x:Column>0</x:Column></x:ClientData></v:shape></xml>')
+
+
+def _xlsx_extra_part(kind: str, n: int) -> bytes:
+    main = wxlsx.MAIN
+    if kind == "vmlDrawing":
+        return _VML.encode()
+    if kind == "comments":
+        return (f'<?xml version="1.0"?><comments xmlns="{main}"><authors><author>rev</author></authors><commentList>'
+                '<comment ref="A1" authorId="0"><text><r><t>note</t></r></text></comment></commentList></comments>').encode()
+    if kind == "table":
+        return (f'<?xml version="1.0"?><table xmlns="{main}" id="{n}" name="T{n}" displayName="T{n}" ref="A1:A1" '
+                'totalsRowShown="0"><tableColumns count="1"><tableColumn id="1" name="c"/></tableColumns></table>').encode()
+    return b"\x00\x01printer-settings-devmode\x00"
+
+
+def _xlsx_sheet_rels(order, n, drawing_target) -> bytes:
+    """Relationship part of a worksheet: the entries of `order` ("drawing" = the picture drawing) in that order."""
+    out = ""
+    for k, kind in enumerate(order, start=1):
+        if kind == "drawing":
+            out += f'<Relationship Id="rIdD" Type="{wxlsx.REL}/drawing" Target="{drawing_target}"/>'
+        else:
+            typ, target, _ = XLSX_EXTRA_RELS[kind]
+            out += f'<Relationship Id="rIdX{k}" Type="{wxlsx.REL}/{typ}" Target="{target.format(n=n)}"/>'
+    return ('<?xml version="1.0"?><Relationships xmlns="http://schemas.openxmlformats.org/package/2006/relationships">'
+            f"{out}</Relationships>").encode()
 
 
 def build_xlsx(conc) -> bytes:
@@ -278,11 +320,33 @@ def build_xlsx(conc) -> bytes:
         sheets.append({"name": word(900 + u), "name_id": 900 + u, "rows": [[["s", 910 + u]]],
                        "images": [{"target": "placeholder", "part": None, "data": None}] if mine else []})
     base = wxlsx.write_xlsx({"kind": "book", "sheets": sheets})
-    drawings = _xlsx_drawing_parts(base)
+    parts = _xlsx_drawing_parts(base)
+    edit, ctypes = {}, ""
     for u, mine in per_unit.items():
+        sheet, relpart, dpart = parts[u - 1]
+        order = list((conc.get("sheetrels") or {}).get(u) or (["drawing"] if mine else []))
+        if mine and "drawing" not in order:
+            order.append("drawing")
+        if not mine:
+            order = [k for k in order if k != "drawing"]
+        extras = [k for k in order if k != "drawing"]
+        if extras:
+            # the sheet's relationship part lists the extra relationships around the drawing one, in this order
+            dtarget = "../drawings/" + dpart.rsplit("/", 1)[1] if dpart else ""
+            add[relpart] = _xlsx_sheet_rels(order, u, dtarget)
+            for kind in extras:
+                add[XLSX_EXTRA_RELS[kind][2].format(n=u)] = _xlsx_extra_part(kind, u)
+                if kind == "comments":
+                    ctypes += (f'<Override PartName="/xl/comments{u}.xml" ContentType="application/vnd.openxmlformats-'
+                               'officedocument.spreadsheetml.comments+xml"/>')
+                if kind == "table":
+                    ctypes += (f'<Override PartName="/xl/tables/table{u}.xml" ContentType="application/vnd.openxmlformats-'
+                               'officedocument.spreadsheetml.table+xml"/>')
+            if "vmlDrawing" in extras:       # cell comments: the sheet points at its legacy drawing
+                rid = f"rIdX{order.index('vmlDrawing') + 1}"
+                edit[sheet] = (lambda b, rid=rid: b.decode().replace("</worksheet>", f'<legacyDrawing r:id="{rid}"/></worksheet>').encode())
         if not mine:
             continue
-        dpart = drawings[u - 1]
         if dpart is None or not dpart.startswith("xl/drawings/"):
             raise ValueError(f"shared xlsx writer: no drawing part for sheet {u}")
         anchors = "".join(_xlsx_anchor(m, a, rids[i]) for m, (i, a) in enumerate(mine, start=1))
@@ -294,7 +358,12 @@ def build_xlsx(conc) -> bytes:
         add["xl/drawings/_rels/" + dpart.rsplit("/", 1)[1] + ".rels"] = (
             '<?xml version="1.0"?><Relationships xmlns="http://schemas.openxmlformats.org/package/2006/relationships">'
             f"{rels}</Relationships>").encode()
-    return zip_patch(base, add=add)
+    if ctypes or edit:
+        edit["[Content_Types].xml"] = lambda b: b.decode().replace("</Types>", (
+            '<Default Extension="vml" ContentType="application/vnd.openxmlformats-officedocument.vmlDrawing"/>'
+            '<Default Extension="bin" ContentType="application/vnd.openxmlformats-officedocument.spreadsheetml.printerSettings"/>'
+            + ctypes + "</Types>")).encode()
+    return zip_patch(base, add=add, edit=edit)
 
 
 # ----------------------------------------------------------------------------- ODF
@@ -428,14 +497,21 @@ def build_pdf(conc) -> bytes:
 
 
 # ----------------------------------------------------------------------------- RTF
-def rtf_pict(m, wrap: int = 0, blipuid: bool = False) -> str:
+def rtf_pict(m, wrap: int = 0, blipuid: bool = False, crop: bool = False, scale: bool = False, eol: str = "\n") -> str:
+    """{\\pict ...}: header control words as word processors write them (pixel size, goal size in twips, optional
+    scaling, optional cropping with NEGATIVE values = added margin, optional {\\*\\blipuid} destination), then the
+    hex dump on one line or wrapped at `wrap` columns with LF or CRLF."""
     blip = {"png": "\\pngblip", "jpeg": "\\jpegblip"}[m["kind"]]
     hexd = m["data"].hex()
     if wrap:
-        hexd = "\n".join(hexd[k:k + wrap] for k in range(0, len(hexd), wrap))
+        hexd = eol.join(hexd[k:k + wrap] for k in range(0, len(hexd), wrap))
+    head = f"\\picw{m['w']}\\pich{m['h']}\\picwgoal{m['w'] * 15}\\pichgoal{m['h'] * 15}"
+    if scale:
+        head = "\\picscalex87\\picscaley113" + head
+    if crop:
+        head += "\\piccropl-120\\piccropr0\\piccropt-5\\piccropb30"
     uid = "{\\*\\blipuid " + "0123456789abcdef" * 2 + "}" if blipuid else ""
-    return ("{\\pict" + blip + f"\\picw{m['w']}\\pich{m['h']}\\picwgoal{m['w'] * 15}\\pichgoal{m['h'] * 15}"
-            + uid + "\n" + hexd + "}")
+    return "{\\pict" + blip + head + uid + eol + hexd + "}"
 
 
 def build_rtf(conc) -> bytes:
@@ -446,7 +522,8 @@ def build_rtf(conc) -> bytes:
         for a in conc["anchors"]:
             if a["unit"] == u:
                 m = conc["media"][a["cands"][0]["to"] - 1]
-                body += "\\pard\\plain " + rtf_pict(m, a.get("wrap", 0), a.get("blipuid", False)) + "\\par\n"
+                body += ("\\pard\\plain " + rtf_pict(m, a.get("wrap", 0), a.get("blipuid", False), a.get("crop", False),
+                                                         a.get("scale", False), a.get("eol", "\n")) + "\\par\n")
         pages.append(body)
     return (head + "\\page\n".join(pages) + "}").encode("ascii")
 
